@@ -7,7 +7,7 @@
    SARSOP / GapMin control (sampling, bins, queues) is not modelled: their outputs are covered by
    the certificate checkers of Spec.v (proof-carrying bounds), see DESIGN.md §4 C03. *)
 From Coq Require Import List Arith ZArith QArith Qminmax Bool.
-From AIT Require Import Base.Qx Base.Mdp Base.MdpExec C02.Model C02.Spec.
+From AIT Require Import Base.Qx Base.Mdp Base.MdpExec C02.Model C02.Spec C04.Model.
 Import ListNotations.
 Local Open Scope Q_scope.
 
@@ -141,3 +141,33 @@ Definition best_conservative (m : pomdp) (lbv : list vec) (b : vec) : nat * Q * 
   let als := map (bca_alpha m lbv b) (seq 0 (nA (pm m))) in
   let '(id, v) := argmax (map (fun al => dot b al) als) in
   (id, v, nth id als []).
+
+(* ---------------- PBVI / PERSEUS (value-function level; lists NEWEST FIRST) ----------------
+   src: PBVI::operator()(model, beliefs, v) — per action and belief crossSumBestAtBelief over the
+   Projecter output (C04.Model.csbb_row / proj_row), then extractDominated per action and the
+   extractBestAtPoint sweep: both only SELECT a sub-list, modelled by the parameter [select].
+   src: PERSEUS::operator()(model, minReward) — start vector minReward/(1-discount), per belief
+   (those not yet improved: again a selection) crossSumBestAtBelief over all actions (csbb_all). *)
+Definition zero_list (S : nat) : vlist := [ {| vals := vzero S; act := 0%nat; obs := [] |} ].
+Definition pbvi_reqs (m : pomdp) (bl : list vec) : list (vec * nat) :=
+  flat_map (fun a => map (fun b => (b, a)) bl) (seq 0 (nA (pm m))).
+Definition pbvi_cands (m : pomdp) (w : vlist) (reqs : list (vec * nat)) : vlist :=
+  map (fun ba => fst (csbb_row (fst ba) (proj_row m w (snd ba)) (snd ba) (nS (pm m)))) reqs.
+Definition perseus_start (m : pomdp) (minRew : Q) : vlist :=
+  [ {| vals := repeat (Qred (minRew / (1 - gam (pm m)))) (nS (pm m)); act := 0%nat; obs := [] |} ].
+Definition perseus_cands (m : pomdp) (w : vlist) (bl : list vec) : vlist :=
+  map (fun b => fst (csbb_all m w b)) bl.
+
+Section PointBased.
+  Variable select : vlist -> vlist.
+  Fixpoint pbvi_chain (m : pomdp) (bl : list vec) (h : nat) : list vlist :=
+    match h with
+    | O => [zero_list (nS (pm m))]
+    | S h' => let c := pbvi_chain m bl h' in select (pbvi_cands m (hd [] c) (pbvi_reqs m bl)) :: c
+    end.
+  Fixpoint perseus_chain (m : pomdp) (bl : list vec) (minRew : Q) (h : nat) : list vlist :=
+    match h with
+    | O => [perseus_start m minRew]
+    | S h' => let c := perseus_chain m bl minRew h' in select (perseus_cands m (hd [] c) bl) :: c
+    end.
+End PointBased.
